@@ -122,6 +122,7 @@ func H_C13() {
 	before := entriesOf(L)
 	results := make([]copResult, G)
 	var wg sync.WaitGroup
+	h.api.gated = true
 	vx.ExploreOn()
 	for g := 0; g < G; g++ {
 		wg.Add(1)
@@ -136,6 +137,7 @@ func H_C13() {
 	final := entriesOf(L)
 	fset := hashSet(final)
 	// structural guarantees on the final state
+	propOverride = "C13"
 	checkHeads(L, "after concurrent operations")
 	checkValues(h, L, "after concurrent operations")
 	if !bounded { // a size-bounded merge drops entries by design (C16)
@@ -223,3 +225,95 @@ func H_C13() {
 }
 
 var _ = register("H_C13", H_C13)
+
+// gatedLog passes a log to Join through the public iface.IPFSLog interface with gates at the points where
+// Join reads the source (used for deterministic native replay of schedules; the embedded log does the work).
+type gatedLog struct {
+	*ipfslog.IPFSLog
+	tag string
+}
+
+func (g *gatedLog) GetEntries() iface.IPFSLogOrderedEntries {
+	vx.GateSeq(g.tag + ":GetEntries")
+	return g.IPFSLog.GetEntries()
+}
+
+func (g *gatedLog) RawHeads() iface.IPFSLogOrderedEntries {
+	vx.GateSeq(g.tag + ":RawHeads")
+	return g.IPFSLog.RawHeads()
+}
+
+func asSource(l *ipfslog.IPFSLog, tag string) iface.IPFSLog {
+	if vx.Param("WRAP", 0) == 1 {
+		return &gatedLog{IPFSLog: l, tag: tag}
+	}
+	return l
+}
+
+var scenarioNames = []string{"Join||Append(source)", "Join||Join(back)", "Join||Join(source<-third)", "Join||Append+Append(source)"}
+
+// H_C14: a merge from a log that is concurrently appended to / merged into / merging back terminates and
+// yields the union with a state the source really had; every interleaving at lock operations is explored.
+func H_C14() {
+	vx.ExploreOff()
+	cfg := histParams()
+	h := newHist(cfg)
+	h.run(nil, nil)
+	A, B := h.logs[0], h.logs[1]
+	nsc := 2
+	if cfg.R >= 3 {
+		nsc = 3
+	}
+	sc := vx.Choice("scenario", nsc+1)
+	if sc == nsc {
+		sc = 3
+	}
+	vx.Sig("scenario=" + scenarioNames[sc])
+	aBefore, bBefore := hashSet(entriesOf(A)), hashSet(entriesOf(B))
+	h.api.gated = true
+	var wg sync.WaitGroup
+	var errA, errB error
+	vx.ExploreOn()
+	wg.Add(2)
+	go func() {
+		defer wg.Done()
+		_, errA = A.Join(asSource(B, "B"), -1)
+	}()
+	go func() {
+		defer wg.Done()
+		switch sc {
+		case 0:
+			_, errB = B.Append(ctx, []byte("live"), nil)
+		case 1:
+			_, errB = B.Join(asSource(A, "A"), -1)
+		case 2:
+			_, errB = B.Join(asSource(h.logs[2], "C"), -1)
+		case 3:
+			B.Append(ctx, []byte("live1"), nil)
+			_, errB = B.Append(ctx, []byte("live2"), nil)
+		}
+	}()
+	wg.Wait()
+	vx.ExploreOff()
+	vx.Cover("both-returned")
+	vx.Assert("C14", errA == nil && errB == nil, "both concurrent operations succeed")
+	aFinal, bFinal := entriesOf(A), entriesOf(B)
+	aSet, bSet := hashSet(aFinal), hashSet(bFinal)
+	vx.Assert("C14", subset(aBefore, aSet) && subset(bBefore, aSet), "the result contains the destination's entries and everything the source held when the merge began")
+	vx.Assert("C14", subset(aSet, union(aBefore, bSet)), "the result contains nothing the source never held")
+	heads := A.Heads().Slice()
+	vx.Assert("C14", subset(hashSet(heads), aSet), "every head of the result is an entry of the result")
+	for _, hd := range heads {
+		past := refPast([]string{hstr(hd)}, append(append([]iface.IPFSLogEntry{}, aFinal...), bFinal...))
+		vx.Assert("C14", subset(past, aSet), "all of a head's history that the source held is included in the result")
+	}
+	vx.Assert("C14", sameSet(hashSet(heads), refHeads(aFinal)), "the heads of the result are its unreferenced entries")
+	if len(aSet) > len(union(aBefore, bBefore)) {
+		vx.Cover("merged-live-entry")
+	}
+	if sc == 1 {
+		vx.Assert("C14", subset(aBefore, bSet) && sameSet(hashSet(B.Heads().Slice()), refHeads(bFinal)), "the symmetric merge is consistent as well")
+	}
+}
+
+var _ = register("H_C14", H_C14)
